@@ -11,12 +11,12 @@ def mix(a, b, k):
 
 def blend(p, q):
     r = p * 3
-    s = q + 1
+    t = q + 1
     d4.Setting = (r -
-                  s * p +
+                  t * p +
                   q * r)
     return (r +
-            s * 2)
+            t * 2)
 
 
 mix(d0.Setting, d1.Setting, 2)
